@@ -52,7 +52,7 @@ pub const MARATHON: [&str; 10] = [
 ];
 
 fn ex_len(tier: Tier) -> u64 {
-    tier.pick(4, 6, 2)
+    tier.pick(5, 6, 2)
 }
 
 fn jobs(plan: &Plan) -> Vec<Job> {
